@@ -666,10 +666,10 @@ package cose
 //@             && Rules(asmap(p), true) && int64Labels(asmap(p)))
 
 //@ func (*ProtectedHeader).UnmarshalCBOR
-//@   ensures accept [C01, C02, C03, C04, C05, C06, C07, C13]: err == nil ==> h != nil && protDecoded(bytes(data), *h) && fresh(*h)
+//@   ensures accept [C01, C02, C03, C04, C05, C06, C07, C13, C19]: err == nil ==> h != nil && protDecoded(bytes(data), *h) && fresh(*h)
 //@   ensures alg_typed [C01, C02, C03, C04, C06, C07]: err == nil ==> (forall k any :: k in asmap(*h) && isIntKey(k) && intOf(k) == 1 && algIsInt(asmap(*h)[k]) ==>
 //@         asmap(*h)[k] is Algorithm && algIsInt(dec_map_val(decMode, bstr_content(bytes(data)))[k]) && algInt(asmap(*h)[k]) == algInt(dec_map_val(decMode, bstr_content(bytes(data)))[k]))
-//@   ensures values_kept [C01, C02, C03, C04, C05, C06, C07, C09]: err == nil && blen(bstr_content(bytes(data))) > 0 ==> (forall k any :: k in asmap(*h) && !(isIntKey(k) && intOf(k) == 1) ==>
+//@   ensures values_kept [C01, C02, C03, C04, C05, C06, C07, C09, C19]: err == nil && blen(bstr_content(bytes(data))) > 0 ==> (forall k any :: k in asmap(*h) && !(isIntKey(k) && intOf(k) == 1) ==>
 //@         asmap(*h)[k] == dec_map_val(decMode, bstr_content(bytes(data)))[k])
 //@   ensures complete [C01, C07]: h != nil && len(data) > 0 && b_major(bytes(data)) == 2 && bstr_wf(bytes(data))
 //@         && (blen(bstr_content(bytes(data))) > 0 ==> b_major(bstr_content(bytes(data))) == 5 && dec_labels_err(decMode, bstr_content(bytes(data))) == nil
@@ -706,7 +706,7 @@ package cose
 //@   modifies frame [C18]: nothing
 
 //@ func (*UnprotectedHeader).UnmarshalCBOR
-//@   ensures accept [C01, C02, C03, C05, C06, C07, C13]: err == nil ==> h != nil && unprotDecoded(bytes(data), *h) && fresh(*h)
+//@   ensures accept [C01, C02, C03, C05, C06, C07, C13, C19]: err == nil ==> h != nil && unprotDecoded(bytes(data), *h) && fresh(*h)
 //@   ensures err_frame [C06, C19]: err != nil && h != nil ==> *h == old(*h)
 //@   modifies frame [C06, C18, C19]: *h
 //@   loop 1 invariant keys_copied: forall k any :: (k in header) <==> (k in seen)
@@ -715,12 +715,12 @@ package cose
 
 //@ func (*Headers).UnmarshalFromRaw
 //@   requires nonnil: h != nil
-//@   ensures ok [C01, C02, C03, C05, C06, C07, C13]: err == nil ==> headersDecoded(*h) && fresh(h.Protected) && fresh(h.Unprotected)
+//@   ensures ok [C01, C02, C03, C05, C06, C07, C13, C19]: err == nil ==> headersDecoded(*h) && fresh(h.Protected) && fresh(h.Unprotected)
 //@   ensures raw_kept [C01, C02, C03, C06, C07, C09, C19]: h.RawProtected == old(h.RawProtected) && h.RawUnprotected == old(h.RawUnprotected)
 //@   modifies frame [C01, C02, C03, C06, C07, C18, C19]: h.Protected, h.Unprotected
 
 //@ func (*Signature).UnmarshalCBOR
-//@   ensures accept [C01, C02, C03, C05, C07, C09]: err == nil ==> sigDecoded(bytes(data), s)
+//@   ensures accept [C01, C02, C03, C05, C07, C09, C19]: err == nil ==> sigDecoded(bytes(data), s)
 //@   ensures no_alias [C01, C19]: err == nil ==> fresh(s.Headers.RawProtected) && fresh(s.Headers.RawUnprotected) && fresh(s.Signature) && fresh(s.Headers.Protected) && fresh(s.Headers.Unprotected)
 //@   ensures err_frame [C01, C19]: err != nil && s != nil ==> *s == old(*s)
 //@   modifies frame [C01, C18, C19]: *s
@@ -737,25 +737,25 @@ package cose
 
 //@ func (*Sign1Message).doUnmarshal
 //@   requires nonnil: m != nil
-//@   ensures accept [C01, C02, C03, C05, C06, C07, C09]: err == nil ==> len(data) > 0 && (bat(bytes(data), 0) == 132 ==> sign1Decoded(bytes(data), m))
+//@   ensures accept [C01, C02, C03, C05, C06, C07, C09, C19]: err == nil ==> len(data) > 0 && (bat(bytes(data), 0) == 132 ==> sign1Decoded(bytes(data), m))
 //@         && dec_shape_err(decModeWithTagsForbidden, bytes(data), "github.com/veraison/go-cose.sign1Message") == nil
 //@   ensures no_alias [C06, C19]: err == nil ==> sign1Fresh(m)
 //@   ensures err_frame [C06, C19]: err != nil ==> *m == old(*m)
 //@   modifies frame [C06, C18, C19]: *m
 
 //@ func (*Sign1Message).UnmarshalCBOR
-//@   ensures accept [C01, C02, C03, C05, C06, C07, C09]: err == nil ==> m != nil && len(data) >= 2 && bat(bytes(data), 0) == 210 && sign1Decoded(bytes(data[1:]), m)
+//@   ensures accept [C01, C02, C03, C05, C06, C07, C09, C19]: err == nil ==> m != nil && len(data) >= 2 && bat(bytes(data), 0) == 210 && sign1Decoded(bytes(data[1:]), m)
 //@   ensures no_alias [C01, C06, C19]: err == nil ==> sign1Fresh(m)
 //@   ensures err_frame [C01, C06, C19]: err != nil && m != nil ==> *m == old(*m)
 //@   modifies frame [C01, C06, C18, C19]: *m
 
 //@ func (*UntaggedSign1Message).UnmarshalCBOR
-//@   ensures accept [C01, C02, C03, C05, C07, C09]: err == nil ==> m != nil && sign1Decoded(bytes(data), m)
+//@   ensures accept [C01, C02, C03, C05, C07, C09, C19]: err == nil ==> m != nil && sign1Decoded(bytes(data), m)
 //@   ensures err_frame [C01, C19]: err != nil && m != nil ==> *m == old(*m)
 //@   modifies frame [C01, C18, C19]: *m
 
 //@ func (*Countersignature).UnmarshalCBOR
-//@   ensures accept [C01, C02, C03, C05, C07, C09]: err == nil ==> sigDecoded(bytes(data), s)
+//@   ensures accept [C01, C02, C03, C05, C07, C09, C19]: err == nil ==> sigDecoded(bytes(data), s)
 //@   ensures err_frame [C19]: err != nil && s != nil ==> *s == old(*s)
 //@   modifies frame [C18, C19]: *s
 
@@ -808,12 +808,12 @@ package cose
 //@   loop 1 invariant prefix_nonempty [C01, C11, C20]: forall j Int :: 0 <= j && j < idx ==> m.Signatures[j] != nil && len(m.Signatures[j].Signature) > 0
 
 //@ func (*SignMessage).UnmarshalCBOR
-//@   ensures accept [C01, C02, C03, C05, C07, C09, C11]: err == nil ==> m != nil && len(data) >= 3 && bat(bytes(data), 0) == 216 && bat(bytes(data), 1) == 98 && bat(bytes(data), 2) == 132
+//@   ensures accept [C01, C02, C03, C05, C07, C09, C11, C19]: err == nil ==> m != nil && len(data) >= 3 && bat(bytes(data), 0) == 216 && bat(bytes(data), 1) == 98 && bat(bytes(data), 2) == 132
 //@         && dec_shape_err(decModeWithTagsForbidden, bytes(data[2:]), "github.com/veraison/go-cose.signMessage") == nil
 //@         && bytes(m.Headers.RawProtected) == dec_elem(bytes(data[2:]), 0) && bytes(m.Headers.RawUnprotected) == dec_elem(bytes(data[2:]), 1)
 //@         && headersDecoded(m.Headers)
 //@         && len(m.Signatures) > 0 && len(m.Signatures) == dec_count(bytes(data[2:]), 3)
-//@   ensures sigs [C01, C02, C03, C05, C07, C09, C11]: err == nil ==> (forall i Int :: 0 <= i && i < len(m.Signatures) ==> m.Signatures[i] != nil && len(m.Signatures[i].Signature) > 0 && fresh(m.Signatures[i]))
+//@   ensures sigs [C01, C02, C03, C05, C07, C09, C11, C19]: err == nil ==> (forall i Int :: 0 <= i && i < len(m.Signatures) ==> m.Signatures[i] != nil && len(m.Signatures[i].Signature) > 0 && fresh(m.Signatures[i]))
 //@   ensures no_alias [C01, C19]: err == nil ==> fresh(m.Headers.RawProtected) && fresh(m.Headers.RawUnprotected) && (m.Payload != nil ==> fresh(m.Payload)) && fresh(m.Signatures)
 //@         && fresh(m.Headers.Protected) && fresh(m.Headers.Unprotected)
 //@   ensures err_frame [C01, C19]: err != nil && m != nil ==> *m == old(*m) && (forall i Int :: 0 <= i && i < old(len(m.Signatures)) ==> m.Signatures[i] == old(m.Signatures[i]))
@@ -1246,23 +1246,23 @@ package cose
 //@   requires nonnil: k != nil
 //@   ensures out [C08, C14]: (err == nil ==> fresh(result) && len(result) > 0) && (err != nil ==> result == nil)
 //@   modifies frame [C18]: nothing
-//@   loop 1 invariant copied [C14]: forall q any :: q in seen && q is int64 ==> (q in tmp && tmp[q] == k.Params[q])
+//@   loop 1 invariant copied [C14, C15]: forall q any :: q in seen && q is int64 ==> (q in tmp && tmp[q] == k.Params[q])
 //@   loop 1 invariant seen_dom [C14]: forall q any :: q in seen ==> q in k.Params
 //@   loop 1 invariant tmp_fresh [C14]: tmp != nil && fresh(tmp) && fresh(existing) && existing != nil && int64(1) in tmp
 //@   loop 1 invariant existing_fwd [C14]: forall q any :: q in seen ==> normKey(q) in existing
-//@   callsite pad_x [C14] EncMode.Marshal#1: k.Type == 2 && sizeOf(pCurve(k.Params)) > 0 && len(pBytes(k.Params, -2)) > 0 && len(pBytes(k.Params, -2)) < sizeOf(pCurve(k.Params))
+//@   callsite pad_x [C14, C15] EncMode.Marshal#1: k.Type == 2 && sizeOf(pCurve(k.Params)) > 0 && len(pBytes(k.Params, -2)) > 0 && len(pBytes(k.Params, -2)) < sizeOf(pCurve(k.Params))
 //@         ==> arg1 is map[any]any && int64(-2) in arg1.(map[any]any) && paddedTo(arg1.(map[any]any)[int64(-2)], pBytes(k.Params, -2), sizeOf(pCurve(k.Params)))
-//@   callsite pad_y [C14] EncMode.Marshal#1: k.Type == 2 && sizeOf(pCurve(k.Params)) > 0 && len(pBytes(k.Params, -3)) > 0 && len(pBytes(k.Params, -3)) < sizeOf(pCurve(k.Params))
+//@   callsite pad_y [C14, C15] EncMode.Marshal#1: k.Type == 2 && sizeOf(pCurve(k.Params)) > 0 && len(pBytes(k.Params, -3)) > 0 && len(pBytes(k.Params, -3)) < sizeOf(pCurve(k.Params))
 //@         ==> arg1 is map[any]any && int64(-3) in arg1.(map[any]any) && paddedTo(arg1.(map[any]any)[int64(-3)], pBytes(k.Params, -3), sizeOf(pCurve(k.Params)))
-//@   callsite full_x [C14] EncMode.Marshal#1: int64Labels(k.Params) && k.Type == 2 && sizeOf(pCurve(k.Params)) > 0 && len(pBytes(k.Params, -2)) == sizeOf(pCurve(k.Params))
+//@   callsite full_x [C14, C15] EncMode.Marshal#1: int64Labels(k.Params) && k.Type == 2 && sizeOf(pCurve(k.Params)) > 0 && len(pBytes(k.Params, -2)) == sizeOf(pCurve(k.Params))
 //@         ==> arg1 is map[any]any && int64(-2) in arg1.(map[any]any) && arg1.(map[any]any)[int64(-2)] == k.Params[int64(-2)]
-//@   callsite full_y [C14] EncMode.Marshal#1: int64Labels(k.Params) && k.Type == 2 && sizeOf(pCurve(k.Params)) > 0 && len(pBytes(k.Params, -3)) == sizeOf(pCurve(k.Params))
+//@   callsite full_y [C14, C15] EncMode.Marshal#1: int64Labels(k.Params) && k.Type == 2 && sizeOf(pCurve(k.Params)) > 0 && len(pBytes(k.Params, -3)) == sizeOf(pCurve(k.Params))
 //@         ==> arg1 is map[any]any && int64(-3) in arg1.(map[any]any) && arg1.(map[any]any)[int64(-3)] == k.Params[int64(-3)]
-//@   loop 1 invariant common_kept [C08]: commonFields(k, tmp)
-//@   callsite rest_kept [C08, C14] EncMode.Marshal#1: int64Labels(k.Params) ==> arg1 is map[any]any
+//@   loop 1 invariant common_kept [C08, C15]: commonFields(k, tmp)
+//@   callsite rest_kept [C08, C14, C15] EncMode.Marshal#1: int64Labels(k.Params) ==> arg1 is map[any]any
 //@         && (forall q any :: q in k.Params && q is int64 && q != int64(-2) && q != int64(-3) ==> q in arg1.(map[any]any) && arg1.(map[any]any)[q] == k.Params[q])
 //@   callsite common [C08, C14, C15] EncMode.Marshal#1: arg1 is map[any]any && int64(1) in arg1.(map[any]any)
-//@   callsite common_fields [C08] EncMode.Marshal#1: arg1 is map[any]any && commonFields(k, arg1.(map[any]any))
+//@   callsite common_fields [C08, C15] EncMode.Marshal#1: arg1 is map[any]any && commonFields(k, arg1.(map[any]any))
 
 //@ func KeyOpFromString
 //@   ensures known [C15]: result1 ==> result0 >= 1 && result0 <= 8
@@ -1271,11 +1271,11 @@ package cose
 
 //@ func (*Key).UnmarshalCBOR
 //@   requires nonnil: k != nil
-//@   ensures accept [C06, C14, C15]: err == nil ==> k.Type != 0 && keyShapeOK(k.Type, k.Params, k.Algorithm)
+//@   ensures accept [C06, C14, C15, C19]: err == nil ==> k.Type != 0 && keyShapeOK(k.Type, k.Params, k.Algorithm)
 //@         && dec_shape_err(decMode, bytes(data), "map[any]any") == nil
 //@         && int64(1) in dec_map_dom(decMode, bytes(data)) && any_canint(dec_map_val(decMode, bytes(data))[int64(1)]) && k.Type == any_intval(dec_map_val(decMode, bytes(data))[int64(1)])
-//@   ensures labels [C14, C15]: err == nil ==> (forall q any :: q in k.Params ==> (q is int64 || q is string) && q != int64(1) && q != int64(2) && q != int64(3) && q != int64(4) && q != int64(5))
-//@   ensures ops [C14, C15]: err == nil ==> (k.Ops == nil <==> !(int64(4) in dec_map_dom(decMode, bytes(data))))
+//@   ensures labels [C14, C15, C19]: err == nil ==> (forall q any :: q in k.Params ==> (q is int64 || q is string) && q != int64(1) && q != int64(2) && q != int64(3) && q != int64(4) && q != int64(5))
+//@   ensures ops [C14, C15, C19]: err == nil ==> (k.Ops == nil <==> !(int64(4) in dec_map_dom(decMode, bytes(data))))
 //@   modifies frame [C14, C18]: *k
 //@   loop 1 invariant ops_bounds: 0 <= idx && idx <= len(key_ops) && len(k.Ops) == len(key_ops) && fresh(k.Ops) && k.Ops != nil && len(key_ops) > 0
 //@   loop 1 invariant ops_kept: key_ops == entry(key_ops) && k.Type == entry(k.Type) && k.ID == entry(k.ID) && k.Algorithm == entry(k.Algorithm)
